@@ -96,7 +96,7 @@ def run_verus(rs, seed=None, rlimit=None, threads=16):
     if rlimit:
         cmd += ["--rlimit", str(rlimit)]
     if seed is not None:
-        cmd += ["-V", "smt-option=smt.random_seed=%d" % (seed % 100000)]
+        cmd += ["--smt-option", "smt.random_seed=%d" % (seed % 100000)]
     t0 = time.time()
     r = sh(cmd, cwd=os.path.dirname(rs))
     wall = time.time() - t0
